@@ -17,7 +17,7 @@ Theorem c16_invariant : forall g fast ext my h,
   s_counter s = (if s_am_unchoking s then 1 else 0)%Z /\
   (length (s_requested s) <= 250)%nat /\
   Forall (fun r => u_length r <= max_request_length) (s_requested s).
-Proof. intros g fast ext my h. exact (run_inv16 h _ (init_inv16 g fast ext my)). Qed.
+Proof. exact invariant16_all. Qed.
 Print Assumptions c16_invariant.
 
 (* A Piece message written by the upload tick answers the oldest pending request of a
